@@ -168,11 +168,30 @@ fn pair2_type_id() -> std::any::TypeId {
 // ---------------------------------------------------------------------------------------
 // goal kinds
 
+thread_local! {
+    /// How conjunctions and disjunctions are built: 0 = what the macros expand to (conde / cond
+    /// operators, InferredConj), 1 = the constructor functions of the public API
+    /// (Disj::from_conjunctions / Conj::from_vec and their DFS twins), 2 = pairwise nesting with
+    /// Disj::new / Conj::new. The three must denote the same goal.
+    pub static API_MODE: std::cell::Cell<u8> = std::cell::Cell::new(0);
+}
+
+/// run `f` with the given construction mode
+pub fn with_api_mode<T>(mode: u8, f: impl FnOnce() -> T) -> T {
+    let old = API_MODE.with(|m| m.replace(mode));
+    let r = f();
+    API_MODE.with(|m| m.set(old));
+    r
+}
+
 pub trait Kinded: AnyGoal<U, E> {
     const DFS: bool;
     /// embed a BFS-only goal (conda, condu, onceo, loop, always, never, matche…)
     fn from_bfs(g: Goal<U, E>) -> Self;
     fn disj(clauses: &[&[Self]]) -> Self;
+    /// a disjunction / conjunction through the constructor functions (mode 1 or 2)
+    fn disj_fn(clauses: &[&[Self]], mode: u8) -> Self;
+    fn conj_fn(goals: Vec<Self>, mode: u8) -> Self;
 }
 
 impl Kinded for Goal<U, E> {
@@ -184,6 +203,41 @@ impl Kinded for Goal<U, E> {
         // `conde { … }` in surface syntax
         proto_vulcan::operator::conde::conde(OperatorParam::new(clauses))
     }
+    fn disj_fn(clauses: &[&[Self]], mode: u8) -> Self {
+        use proto_vulcan::operator::conj::Conj;
+        use proto_vulcan::operator::disj::Disj;
+        if mode == 1 {
+            Disj::from_conjunctions(clauses)
+        } else {
+            let mut gs: Vec<Goal<U, E>> = clauses.iter().map(|c| if c.is_empty() { relation::succeed::<U, E, Goal<U, E>>().cast_into() } else { Conj::from_array(c) }).collect();
+            let mut acc = match gs.pop() {
+                Some(g) => g,
+                None => return relation::fail::<U, E, Goal<U, E>>().cast_into(),
+            };
+            while let Some(g) = gs.pop() {
+                acc = Disj::new(g, acc);
+            }
+            acc
+        }
+    }
+    fn conj_fn(mut goals: Vec<Self>, mode: u8) -> Self {
+        use proto_vulcan::operator::conj::Conj;
+        if goals.is_empty() {
+            return relation::succeed::<U, E, Goal<U, E>>().cast_into();
+        }
+        if mode == 1 {
+            Conj::from_vec(goals)
+        } else {
+            let mut acc = match goals.pop() {
+                Some(g) => g,
+                None => return relation::succeed::<U, E, Goal<U, E>>().cast_into(),
+            };
+            while let Some(g) = goals.pop() {
+                acc = Conj::new(g, acc);
+            }
+            acc
+        }
+    }
 }
 
 impl Kinded for DFSGoal<U, E> {
@@ -194,6 +248,41 @@ impl Kinded for DFSGoal<U, E> {
     fn disj(clauses: &[&[Self]]) -> Self {
         // `cond { … }` in surface syntax inside dfs
         proto_vulcan::operator::conde::cond(OperatorParam::new(clauses)).cast_into()
+    }
+    fn disj_fn(clauses: &[&[Self]], mode: u8) -> Self {
+        use proto_vulcan::operator::conj::DFSConj;
+        use proto_vulcan::operator::disj::DFSDisj;
+        if mode == 1 {
+            DFSDisj::from_conjunctions(clauses)
+        } else {
+            let mut gs: Vec<DFSGoal<U, E>> = clauses.iter().map(|c| if c.is_empty() { relation::succeed::<U, E, DFSGoal<U, E>>().cast_into() } else { DFSConj::from_array(c) }).collect();
+            let mut acc = match gs.pop() {
+                Some(g) => g,
+                None => return relation::fail::<U, E, DFSGoal<U, E>>().cast_into(),
+            };
+            while let Some(g) = gs.pop() {
+                acc = DFSDisj::new(g, acc);
+            }
+            acc
+        }
+    }
+    fn conj_fn(mut goals: Vec<Self>, mode: u8) -> Self {
+        use proto_vulcan::operator::conj::DFSConj;
+        if goals.is_empty() {
+            return relation::succeed::<U, E, DFSGoal<U, E>>().cast_into();
+        }
+        if mode == 1 {
+            DFSConj::from_vec(goals)
+        } else {
+            let mut acc = match goals.pop() {
+                Some(g) => g,
+                None => return relation::succeed::<U, E, DFSGoal<U, E>>().cast_into(),
+            };
+            while let Some(g) = goals.pop() {
+                acc = DFSConj::new(g, acc);
+            }
+            acc
+        }
     }
 }
 
@@ -221,7 +310,7 @@ impl Env {
             }
         }
         let mut m = self.vars.borrow_mut();
-        m.entry(v).or_insert_with(|| LTerm::var(leak_name(v))).clone()
+        m.entry(v).or_insert_with(|| if v >= ast::WILD_BASE { LTerm::any() } else { LTerm::var(leak_name(v)) }).clone()
     }
 
     pub fn with(&self, binds: Vec<(VarId, LT)>) -> Env {
@@ -431,7 +520,10 @@ fn unit_or_empty(r: SResult<U, E>) -> Stream<U, E> {
 
 pub fn build_conj<G: Kinded>(gs: &[ast::Goal], env: &Env) -> G {
     let v: Vec<G> = gs.iter().map(|g| build_goal::<G>(g, env)).collect();
-    InferredConj::from_array(&v).cast_into()
+    match API_MODE.with(|m| m.get()) {
+        0 => InferredConj::from_array(&v).cast_into(),
+        mode => G::conj_fn(v, mode),
+    }
 }
 
 fn build_clauses<G: Kinded>(cl: &[Vec<ast::Goal>], env: &Env) -> Vec<Vec<G>> {
@@ -452,7 +544,10 @@ pub fn build_goal<G: Kinded>(g: &ast::Goal, env: &Env) -> G {
         A::Conj(gs) => build_conj::<G>(gs, env),
         A::Conde(cl) => {
             let c = build_clauses::<G>(cl, env);
-            G::disj(&as_slices(&c))
+            match API_MODE.with(|m| m.get()) {
+                0 => G::disj(&as_slices(&c)),
+                mode => G::disj_fn(&as_slices(&c), mode),
+            }
         }
         A::Fresh(vs, body) => {
             // as Fresh::to_tokens: the variables are created when the goal is constructed
@@ -596,6 +691,19 @@ pub fn build_goal<G: Kinded>(g: &ast::Goal, env: &Env) -> G {
                 let l: LT = LTerm::from_vec(items);
                 proto_vulcan::operator::everyg(ForOperatorParam::new(l, f)).cast_into()
             }
+        }
+        A::ForIn(x, coll, body) => {
+            // the collection is one term (below `project` a Projection cell that holds the walked
+            // value by the time the goal is solved); everyg iterates it when the goal is solved
+            let l: LT = build_term(coll, env);
+            let body: Rc<Vec<ast::Goal>> = Rc::new(body.clone());
+            let env = env.clone();
+            let x = *x;
+            let f: Box<dyn Fn(LT) -> G> = Box::new(move |e: LT| {
+                let inner = env.with(vec![(x, e)]);
+                build_conj::<G>(&body, &inner)
+            });
+            proto_vulcan::operator::everyg(ForOperatorParam::new(l, f)).cast_into()
         }
         A::Match(kind, t, arms) => {
             // PatternMatchOperator::to_tokens: per arm and alternative a clause
